@@ -253,9 +253,13 @@ class Model:
         self.st = st
         return True
 
-    def wipe(self, inject_failure: bool = False) -> bool:
+    def wipe(self, inject_failure: bool = False, assign: T.Optional[T.Mapping[str, str]] = None) -> bool:
+        """`meson setup --wipe [-D...]`: options given now beat the recorded ones (command line = highest priority) and
+        are recorded together with them."""
         assert self.tree_exists
-        record = dict(self.st.record)
+        old_record = dict(self.st.record)
+        record = dict(old_record)
+        record.update(assign or {})
         st = State()
         self._apply_files(st)
         st.record = record
@@ -266,6 +270,7 @@ class Model:
             st.applied = {'': {}, 'sub': {}}
             st.created_default = {}
             st.user = {}
+            st.record = old_record      # the restored file is the old one: options given to the failed --wipe are not recorded
             self.st = st
             return False
         st.user = dict(record)
